@@ -131,6 +131,8 @@ def ev(t, divmode=0, stat=None):
     if k == "fn":
         v = ev(t[2], divmode, stat)
         r = denote.func(t[1], v)
+        if divmode == 2 and isinstance(r, (float, complex)):
+            r = r * (1 + 4e-16)       # conditioning probe: what a rounding error in this result does to the value around it
     else:
         a = ev(t[2], divmode, stat)
         b = ev(t[3], divmode, stat)
@@ -160,7 +162,17 @@ def expected(toks):
         v1 = ev(tree, 1, None)
     except denote.OutOfDomain:
         v1 = v0
-    tol = 1e-12 * max(st.get("scale", 0.0), abs(v0)) + 8 * abs(complex(v0) - complex(v1)) + 1e-300
+    v2 = v0
+    if any(x in denote.FN for x in toks):
+        # a function applied to a function value near a singular point of the outer one (arctanh(tanh(10)), arctan(tan(1+10j)))
+        # amplifies the inner rounding error; the probe measures by how much, and only that much is added
+        try:
+            v2 = ev(tree, 2, None)
+            if isinstance(v2, (float, complex)) and not cmath.isfinite(complex(v2)):
+                v2 = v0
+        except (denote.OutOfDomain, denote.Refused, Bad, ArithmeticError, ValueError, TypeError):
+            v2 = v0
+    tol = 1e-12 * max(st.get("scale", 0.0), abs(v0)) + 8 * abs(complex(v0) - complex(v1)) + 8 * abs(complex(v0) - complex(v2)) + 1e-300
     return v0, tol, st
 
 
@@ -581,6 +593,14 @@ def run(ctx):
     stats.update(st)
     V.merge(vr)
     bounds.append({"family": "15 functions x 6-9 domain points incl. boundaries and arguments with tiny (1e-17 .. 1e-44) results", "token_strings": len(fitems), "in_domain_checked": st.get("checked", 0)})
+    # (d) a function of a function: ALL ordered pairs f(g(p)) of the 15 functions at arguments inside and outside the
+    # principal ranges of the inverse functions (arcsin(sin(2)) is pi - 2, arccosh(cosh(-2)) is 2, log(exp(1+10j)) wraps)
+    pts = ["2", "-1", "-2", "0.5", "4", "10", "0.25", "-7", "1+10j", "0.5j"]
+    ffitems = [([f, "(", g, "("] + ([p_] if not p_.startswith("-") else ["-", p_[1:]]) + [")", ")"], False) for f in FUNCS for g in FUNCS for p_ in pts]
+    st, vr = _prep(ffitems)
+    stats.update(st)
+    V.merge(vr)
+    bounds.append({"family": "function of a function: all 225 ordered pairs f(g(p)) x 10 arguments inside and outside the principal ranges of the inverse functions", "token_strings": len(ffitems), "in_domain_checked": st.get("checked", 0)})
     cov = {
         "evaluations": stats["checked"] + lst["checked"], "distinct_nontrivial": stats["nontrivial"] + lst["checked"],
         "rule": "all well-formed token strings of the families in `bounds` (every operand tuple x unary prefix x operator tuple x bracket/function span set), each evaluated by the implementation "
